@@ -297,6 +297,15 @@ class C12(Prop):
             if v:
                 bads.append(dict(what=f"{target}: {v}", input={"target": target, "text": text, "pie": pie, "allow_undef": undef}, finding=None))
         pairs = list(pairs) + list(mpairs)
+        # the IR a result turns into (create_ir / gtirb-as): programs with several sections, laid out by the oracle's own size table
+        from harness import asmir
+        rnd = C.rng("c12-ir-boost" if boosted else "c12-ir")
+        nir = 1500 if boosted or tier == "thorough" else 300
+        for _ in range(nir):
+            text, v = asmir.check(rnd)
+            if v:
+                bads.append(dict(what="IR of the result: " + v, input={"text": text, "create_ir": True}, finding=None))
+        pairs = pairs + [None] * nir
         return dict(evaluations=len(pairs), violations=bads[:10], samples=[{"oracle": "layout, disassembly, labels, edges per instruction kind, operands and data conversion checked against the text"}])
 
     def replay(self, path):
